@@ -18,20 +18,24 @@ CONSTANT Start          \* first entry of go.ndjson to judge (resume after an un
 GoRes == ndJsonDeserialize("go.ndjson")
 
 Match(r, id) ==
-  CASE r.op = "ChooseAny" ->       \* any witness, and the same witness for every insertion order
-         LET g == Got(id) ws == {ToString(zw) : zw \in Apply(r.op, r.lam, RowVals(r))} IN
-         Len(g) = 3 /\ \A zj \in 1..3 : ToString(g[zj]) \in ws /\ ToString(g[zj]) = ToString(g[1])
+  CASE r.op = "ChooseAny" ->       \* every reported choice is a witness
+         LET g == Got(id) ws == {NStr(zw) : zw \in Apply(r.op, r.lam, RowVals(r))} IN
+         Len(g) = 3 /\ \A zj \in 1..3 : NStr(g[zj]) \in ws
     [] r.op = "SelectAll" ->       \* indices 0..n-1 select n different members
          LET g == Got(id) e == Apply(r.op, r.lam, RowVals(r)) IN
-         Len(g) = Cardinality(e) /\ {ToString(g[zj]) : zj \in 1..Len(g)} = {ToString(zx) : zx \in e}
-    [] OTHER -> ToString(Got(id)) = ToString(Apply(r.op, r.lam, RowVals(r)))
+         Len(g) = Cardinality(e) /\ {NStr(g[zj]) : zj \in 1..Len(g)} = {NStr(zx) : zx \in e}
+    [] OTHER -> NStr(Got(id)) = NStr(Apply(r.op, r.lam, RowVals(r)))
+(* CHOOSE is a function of the set: the same witness whatever the insertion order of the set *)
+ChooseStable(id) == LET g == Got(id) IN \A zj \in 1..3 : NStr(g[zj]) = NStr(g[1])
 
 Verdict(k) ==
   LET g == GoRes[k] r == Rows[g.id] IN
   IF g.out = "hang" THEN "HANG"
   ELSE IF g.out = "unsupported" THEN "UNSUPPORTED"
   ELSE IF r.def THEN
-         IF g.out = "value" THEN (IF Match(r, g.id) THEN "AGREE" ELSE "WRONG_VALUE")
+         IF g.out = "value" THEN (IF ~Match(r, g.id) THEN "WRONG_VALUE"
+                                  ELSE IF r.op = "ChooseAny" /\ ~ChooseStable(g.id) THEN "CHOOSE_ORDER_DEPENDENT"
+                                  ELSE "AGREE")
          ELSE IF g.out = "tlaerr" THEN (IF r.restr # "" THEN "LOUD_RESTRICTION" ELSE "LOUD_WHERE_VALUE")
          ELSE "PANIC_WHERE_VALUE"
   ELSE IF g.out = "value" THEN "VALUE_WHERE_ERROR"
